@@ -126,6 +126,20 @@ class Tap:
                 enq[(s.station_id, s.charger_id, int(s.enqueue_time))] += 1
         if any(n > 1 for n in enq.values()):
             c["queued_vehicles_share_enqueue_time"] += 1
+        if prev is not None:
+            # a plug is granted to one of several vehicles that share an enqueue time (the tie-break decides)
+            for (sid, cid, t), n in enq.items():
+                pass
+            prev_enq = {}
+            for v in prev.vehicles.values():
+                s0 = v.vehicle_state
+                if s0.__class__.__name__ == "ChargeQueueing":
+                    prev_enq.setdefault((s0.station_id, s0.charger_id, int(s0.enqueue_time)), []).append(v.id)
+            for key, vids in prev_enq.items():
+                if len(vids) > 1:
+                    now_charging = [x for x in vids if sim.vehicles[x].vehicle_state.__class__.__name__ == "ChargingStation"]
+                    if 0 < len(now_charging) < len(vids):
+                        c["plug_granted_among_tied_queuers"] += 1
         # one vehicle named by two fleet passes of the dispatcher
         per_vehicle = Counter()
         for r in reports:
